@@ -101,7 +101,10 @@ def individual(payload: bytes):
 
 
 def prev_index(dec) -> int:
-    name = dec.previous_success_decoder
+    try:
+        name = dec.previous_success_decoder
+    except Exception:  # noqa: BLE001
+        return -1
     if name is None:
         return 0
     names = [n for n, _ in table()]
